@@ -371,6 +371,12 @@ def _baseline_hashes() -> dict:
         p = VERIF / "harness" / "baseline_hashes.json"
         try:
             _BASELINE = json.loads(p.read_text())
+            # the baseline describes one commit of the repository: after a new commit (a `fix:`) it is stale
+            # until regenerated (python3 -m harness.gen_baseline) and the guard stays quiet; an uncommitted
+            # edit or a scratch worktree at the same commit is compared against it
+            rc, head = sh(["git", "-C", str(REPO), "rev-parse", "HEAD"], timeout=30)
+            if rc != 0 or _BASELINE.get("__repo_head__") != head.strip():
+                _BASELINE = {}
         except Exception:  # noqa
             _BASELINE = {}
     return _BASELINE
